@@ -32,9 +32,29 @@ func vAttempt(at [][]vStep, n int) []vStep {
 	return []vStep{{kind: vkComplete}}
 }
 
+// vC15Async: the attempts of the scripted source run in a thread of their own (each attempt ends
+// some time after its Subscribe call has returned) and the user callbacks yield.
+var vC15Async bool
+
+// vC15Src: in the asynchronous variants the scripted source is, by choice, an ordinary observable
+// built with the library's constructor (its Subscribe returns a Subscriber, whose closed flag flips
+// before the terminal callback has run) instead of the bare probe.
+func vC15Src(p *vProbe) Observable[int64] {
+	if vC15Async && vChoice("viaSubscriber", 2) == 1 {
+		return vSubProbe(p)
+	}
+	return p
+}
+
 func vC15Run(name string, obs Observable[int64], p *vProbe, want []vEv, wantSubs int) {
 	rec := &vRecorder{}
-	obs.SubscribeWithContext(context.Background(), vObs(rec, vFlatInt))
+	if vC15Async {
+		p.asyncPlay = true
+		vGo(func() { obs.SubscribeWithContext(context.Background(), vObs(rec, vFlatInt)) })
+		vQuiesce()
+	} else {
+		obs.SubscribeWithContext(context.Background(), vObs(rec, vFlatInt))
+	}
 	vCheckGrammar(name, rec)
 	vAssert(!p.overlap, name+": an attempt was started before the previous one was over and released")
 	vAssert(p.live == 0, name+": an attempt is still subscribed at the end")
@@ -49,7 +69,7 @@ func vC15Retry(A int) {
 	vAssume(maxR >= 0)
 	vAssume(maxR <= int64(A)+1)
 	reset := vBool("resetOnSuccess")
-	obs := RetryWithConfig[int64](RetryConfig{MaxRetries: uint64(maxR), ResetOnSuccess: reset})(p)
+	obs := RetryWithConfig[int64](RetryConfig{MaxRetries: uint64(maxR), ResetOnSuccess: reset})(vC15Src(p))
 	var want []vEv
 	retries := int64(0)
 	subs := 0
@@ -94,7 +114,7 @@ func vC15Repeat(A int) {
 	count := vInt64("count")
 	vAssume(count >= 0)
 	vAssume(count <= int64(A)+1)
-	obs := RepeatWith[int64](count)(p)
+	obs := RepeatWith[int64](count)(vC15Src(p))
 	var want []vEv
 	subs := 0
 	failed := false
@@ -125,6 +145,9 @@ func vC15Loop(A int) {
 	p := &vProbe{name: "src", scripts: at}
 	doWhile := vChoice("dowhile", 2) == 1
 	cond := func(i int64) bool {
+		if vC15Async && vThread() != 0 {
+			vYield() // the condition is being evaluated: the looping goroutine may run meanwhile
+		}
 		if i > int64(A) {
 			return false // keep the loop inside the bound
 		}
@@ -134,9 +157,9 @@ func vC15Loop(A int) {
 	name := "WhileI"
 	if doWhile {
 		name = "DoWhileI"
-		obs = DoWhileI[int64](cond)(p)
+		obs = DoWhileI[int64](cond)(vC15Src(p))
 	} else {
-		obs = WhileI[int64](cond)(p)
+		obs = WhileI[int64](cond)(vC15Src(p))
 	}
 	var want []vEv
 	subs := 0
@@ -239,3 +262,9 @@ func vC15Chain(A int) {
 }
 
 func vhC15_chain_A2() { vC15Chain(2) }
+
+// The same four harnesses with asynchronous attempts (C15: "strictly sequential attempts" also
+// when an attempt ends on another goroutine than the one that subscribed it).
+func vhC15_retryasync_A2()  { vC15Async = true; defer func() { vC15Async = false }(); vC15Retry(2) }
+func vhC15_repeatasync_A2() { vC15Async = true; defer func() { vC15Async = false }(); vC15Repeat(2) }
+func vhC15_loopasync_A2()   { vC15Async = true; defer func() { vC15Async = false }(); vC15Loop(2) }
